@@ -17,6 +17,7 @@ RULE = (
     "(then it must only not raise). Generators: all event sequences of length <= 2 (quick) / 3 (thorough) over a fixed 3-function/1-variable program with a 11-event alphabet (exhaustive) + Hypothesis "
     "sequences of up to 6/10 events over generated programs. Non-trivial = a query separated from the previous query of the same function by an event that changes that function's fresh version; "
     "distinct by (program, events)."
+    " Round 5: renamed definitions (a late-defined variable or helper named like a builtin; very long names)."
 )
 ASSUMPTIONS = [
     "both the running process and the fresh process define every function as its own compilation unit (notebook cell): CPython compiles `mod.attr(...)` differently when `import mod` belongs to the same unit, so cell-defined and file-defined functions have different bytecode and hence different code hashes",
